@@ -1648,10 +1648,14 @@ FROM (
 
     @staticmethod
     def _random_hash_expr(seed_sql: str, index_sql: str) -> str:
-        """Build a deterministic hash-based random expression in [0, 1)."""
+        """Build a deterministic hash-based random expression in [0, 1).
+
+        A null seed or index gives null (hash(NULL) is a number in DuckDB).
+        """
         return (
+            f"CASE WHEN ({seed_sql}) IS NULL OR ({index_sql}) IS NULL THEN NULL ELSE "
             f"(ABS(hash(CAST({seed_sql} AS VARCHAR) || '_' || "
-            f"CAST({index_sql} AS VARCHAR))) % 1000000) / 1000000.0"
+            f"CAST({index_sql} AS VARCHAR))) % 1000000) / 1000000.0 END"
         )
 
     # Clause visitor
